@@ -922,7 +922,8 @@ Qed.
 
 (** shape of a tame base and of the path below it *)
 Lemma base_reduce :
-  forall b rs p,
+  forall (b : bytes) rs p,
+    b <> [] ->
     starts_with_slash p = true -> base_untame b = false -> has_dslash p = false ->
     kb (cores_of (Some b) rs) p = false ->
     exists b' p1,
@@ -933,8 +934,10 @@ Lemma base_reduce :
           at_boundary (skipn (length b') p1) = true
           /\ kb (cores_of (Some b) rs) (skipn (length b') p1) = false).
 Proof.
-  intros b rs p Hsl Hbase Hds Hkb.
-  unfold base_untame in Hbase.
+  intros b rs p Hbne Hsl Hbase Hds Hkb.
+  assert (Hbu : base_untame b = negb (starts_with_slash b) || ends_with_slash b || has_dslash b)
+    by (destruct b; [congruence|reflexivity]).
+  rewrite Hbu in Hbase. clear Hbu.
   apply orb_false_iff in Hbase. destruct Hbase as [Hbase Hbd].
   apply orb_false_iff in Hbase. destruct Hbase as [Hbs Hbe]. apply negb_false_iff in Hbs.
   destruct b as [|c0 b']; [discriminate|]. cbn [starts_with_slash] in Hbs.
@@ -990,16 +993,18 @@ Proof.
   repeat split; auto. destruct base; auto.
 Qed.
 
-Theorem match_iff_flat_fine :
-  forall base rs p,
+Theorem match_iff_flat_fine_ne :
+  forall (base : option bytes) rs p,
+    base <> Some [] ->
     wf_tree rs = true -> wf_routes rs = true -> starts_with_slash p = true ->
     known_class base rs p = false ->
     matches base rs p = flat_any base rs p /\ match_route base rs p <> MPanic.
 Proof.
-  intros base rs p Hwt Hwf Hsl Hk.
+  intros base rs p Hne Hwt Hwf Hsl Hk.
   destruct (known_class_parts _ _ _ Hk) as (Hkb & Hss & Hbase & Hopt & Hds).
   destruct base as [b|].
-  - destruct (base_reduce b rs p Hsl Hbase Hds Hkb) as (b' & p1 & -> & -> & Hbe & Hstrip & Hq).
+  - assert (Hbne : b <> []) by (intros ->; apply Hne; reflexivity).
+    destruct (base_reduce b rs p Hbne Hsl Hbase Hds Hkb) as (b' & p1 & -> & -> & Hbe & Hstrip & Hq).
     match goal with |- _ = ?X /\ _ =>
     assert (Hflat : X
                     = if is_prefix b' p1 then existsb (entry_good (skipn (length b') p1)) (gen_routes rs)
@@ -1036,8 +1041,9 @@ Qed.
 
 (** the first table entry (in declaration order) that matches the path wins, and the
     returned parameters are exactly what the reference binds for one of its expansions *)
-Theorem first_entry_wins_params :
-  forall base rs p ch ps,
+Theorem first_entry_wins_params_ne :
+  forall (base : option bytes) rs p ch ps,
+    base <> Some [] ->
     wf_tree rs = true -> wf_routes rs = true -> starts_with_slash p = true ->
     known_class base rs p = false ->
     match_route base rs p = MYes ch ps ->
@@ -1047,10 +1053,11 @@ Theorem first_entry_wins_params :
       /\ In e (expand_optionals f)
       /\ flat_match e p = Some ps.
 Proof.
-  intros base rs p ch ps Hwt Hwf Hsl Hk Hm.
+  intros base rs p ch ps Hne Hwt Hwf Hsl Hk Hm.
   destruct (known_class_parts _ _ _ Hk) as (Hkb & Hss & Hbase & Hopt & Hds).
   destruct base as [b|].
-  - destruct (base_reduce b rs p Hsl Hbase Hds Hkb) as (b' & p1 & -> & -> & Hbe & Hstrip & Hq).
+  - assert (Hbne : b <> []) by (intros ->; apply Hne; reflexivity).
+    destruct (base_reduce b rs p Hbne Hsl Hbase Hds Hkb) as (b' & p1 & -> & -> & Hbe & Hstrip & Hq).
     unfold match_route in Hm. rewrite Hstrip in Hm.
     destruct (is_prefix b' p1) eqn:Ep; [|discriminate].
     destruct (Hq eq_refl) as [Hbq Hkq].
@@ -1143,10 +1150,12 @@ Proof.
   - split; [exact Hbb|]. exists []. split; [exact Hbs|reflexivity].
 Qed.
 
+(** the path of a table entry: a non-empty base, then the segments; without a base, or with
+    the empty base of <Routes>, the segments alone ("/" if they contribute nothing) *)
 Definition built (base : option bytes) (e : list pseg) (vals : list bytes) : bytes :=
   match base with
-  | Some b => b ++ build e vals
-  | None => build_path e vals
+  | Some (c :: b) => (c :: b) ++ build e vals
+  | _ => build_path e vals
   end.
 
 Lemma first_unique :
@@ -1176,8 +1185,9 @@ Proof.
   now rewrite nth_error_map, H.
 Qed.
 
-Theorem build_then_match_any :
-  forall base rs i f e vals p,
+Theorem build_then_match_any_ne :
+  forall (base : option bytes) rs i f e vals p,
+    base <> Some [] ->
     wf_tree rs = true -> wf_routes rs = true ->
     nth_error (gen_routes rs) i = Some f ->          (* route i of the table ... *)
     In e (expand_optionals f) ->                      (* ... one of its expansions *)
@@ -1193,7 +1203,7 @@ Theorem build_then_match_any :
           Forall (fun x => route_matches_flat x p = false) (firstn i (table base (gen_routes rs))) ->
           ps = bindings f vals).
 Proof.
-  intros base rs i f e vals p Hwt Hwf Hi He Hv Hp Hk.
+  intros base rs i f e vals p Hne Hwt Hwf Hi He Hv Hp Hk.
   destruct (known_class_parts _ _ _ Hk) as (Hkb & Hss & Hbase & Hopt & Hds).
   assert (Hinf : In f (gen_routes rs)) by (eapply nth_error_In; eauto).
   assert (Hfw : wf_flat f = true)
@@ -1212,7 +1222,10 @@ Proof.
                                   forall ps, flat_match e' p = Some ps -> ps = bindings f vals)).
   { destruct base as [b|].
     - (* with base *)
-      unfold base_untame in Hbase.
+      assert (Hbne : b <> []) by (intros ->; apply Hne; reflexivity).
+      assert (Hbu : base_untame b = negb (starts_with_slash b) || ends_with_slash b || has_dslash b)
+        by (destruct b; [congruence|reflexivity]).
+      rewrite Hbu in Hbase. clear Hbu.
       apply orb_false_iff in Hbase. destruct Hbase as [Hbase Hbd].
       apply orb_false_iff in Hbase. destruct Hbase as [Hbs Hbe]. apply negb_false_iff in Hbs.
       destruct b as [|c0 b']; [discriminate|]. cbn [starts_with_slash] in Hbs.
@@ -1246,13 +1259,13 @@ Proof.
         rewrite (flat_match_of_spre _ _ (bindings f vals) r) in Hfm; auto. congruence. }
   destruct Hsl as [Hsl (fi & Hfi & Hfim & Hfip)].
   (* hence the table matches, hence the router does *)
-  destruct (match_iff_flat_fine base rs p Hwt Hwf Hsl Hk) as [Hiff Hnp].
+  destruct (match_iff_flat_fine_ne base rs p Hne Hwt Hwf Hsl Hk) as [Hiff Hnp].
   assert (Hfa : flat_any base rs p = true).
   { unfold flat_any. apply existsb_exists. exists fi. split; [eapply nth_error_In; eauto|exact Hfim]. }
   rewrite Hfa in Hiff. unfold matches in Hiff.
   destruct (match_route base rs p) as [| |ch ps] eqn:Em; try discriminate.
   exists ch, ps. split; [reflexivity|].
-  destruct (first_entry_wins_params base rs p ch ps Hwt Hwf Hsl Hk Em)
+  destruct (first_entry_wins_params_ne base rs p ch ps Hne Hwt Hwf Hsl Hk Em)
     as (pre & g & post & e' & Htab & Hpre & He' & Hfm).
   split; [exists pre, g, post, e'; auto|].
   intros Hfo Hfirst.
@@ -1367,8 +1380,9 @@ Proof.
       exists a', vals. repeat split; auto.
 Qed.
 
-Theorem build_then_match_real :
-  forall base rs i f e pm paths p,
+Theorem build_then_match_real_ne :
+  forall (base : option bytes) rs i f e pm paths p,
+    base <> Some [] ->
     wf_tree rs = true -> wf_routes rs = true ->
     nth_error (gen_routes rs) i = Some f -> In e (expand_optionals f) ->
     pm_ok pm ->
@@ -1385,7 +1399,7 @@ Theorem build_then_match_real :
           Forall (fun x => route_matches_flat x p = false) (firstn i (table base (gen_routes rs))) ->
           ps = bindings f vals).
 Proof.
-  intros base rs i f e pm paths p Hwt Hwf Hi He Hpm Hip Hp Hsl Hk.
+  intros base rs i f e pm paths p Hne Hwt Hwf Hi He Hpm Hip Hp Hsl Hk.
   assert (Hinf : In f (gen_routes rs)) by (eapply nth_error_In; eauto).
   assert (Hfw : wf_flat f = true)
     by (unfold wf_routes in Hwf; rewrite forallb_forall in Hwf; now apply Hwf).
@@ -1395,17 +1409,21 @@ Proof.
   assert (Hb : exists vals, vals_ok e vals /\ p = built base e vals).
   { unfold into_paths, registered in Hip. destruct base as [b|].
     - destruct (known_class_parts _ _ _ Hk) as (_ & _ & Hbase & _ & _).
-      unfold base_untame in Hbase. apply orb_false_iff in Hbase. destruct Hbase as [Hbase _].
+      assert (Hbne : b <> []) by (intros ->; apply Hne; reflexivity).
+      assert (Hbu : base_untame b = negb (starts_with_slash b) || ends_with_slash b || has_dslash b)
+        by (destruct b; [congruence|reflexivity]).
+      rewrite Hbu in Hbase. clear Hbu.
+      apply orb_false_iff in Hbase. destruct Hbase as [Hbase _].
       apply orb_false_iff in Hbase. destruct Hbase as [Hbs _]. apply negb_false_iff in Hbs.
       cbn [paths_from map] in Hip.
       destruct (paths_from_spec e pm Heo Hew Hpm _ _ Hip p Hp) as (a & vals & Ha & -> & Hv).
       destruct Ha as [<-|[]]. exists vals. split; [exact Hv|].
-      unfold join_static. rewrite Hbs. reflexivity.
+      unfold join_static. rewrite Hbs. destruct b as [|c0 b0]; [now elim Hbne|]. reflexivity.
     - destruct (paths_from_spec e pm Heo Hew Hpm _ _ Hip p Hp) as (a & vals & Ha & -> & Hv).
       destruct Ha as [<-|[]]. exists vals. split; [exact Hv|].
       cbn [app built] in *. unfold build_path. destruct (build e vals); [discriminate|reflexivity]. }
   destruct Hb as (vals & Hv & Hpb).
-  destruct (build_then_match_any base rs i f e vals p Hwt Hwf Hi He Hv Hpb Hk)
+  destruct (build_then_match_any_ne base rs i f e vals p Hne Hwt Hwf Hi He Hv Hpb Hk)
     as (ch & ps & Hm & Hfirst & Hps).
   exists vals, ch, ps. repeat split; auto.
 Qed.
@@ -1423,3 +1441,189 @@ Example build_then_match_real_nontrivial :
   /\ match_route (Some [47;120]) rs [47;120;47;98;47;112;47;55]
      = MYes [(0%nat, [47;98]); (1%nat, [47;112;47;55])] [([105;100], [55])].
 Proof. vm_compute. split; reflexivity. Qed.
+
+(** ================================================================================
+    The empty base.  <Routes> / <FlatRoutes> always construct their RouteDefs with
+    [new_with_base(children, base.unwrap_or_default())]: without a <Router base=..> that
+    is [Some ""].  It behaves exactly like no base: nothing is stripped, and the
+    [Static("")] the router puts in front of every table entry contributes nothing.
+    ================================================================================ *)
+Lemma strip_base_empty : forall p : bytes, strip_base (Some []) p = Some p.
+Proof. intros p. unfold strip_base. cbn [starts_with_slash]. rewrite strip_prefix_is_prefix. reflexivity. Qed.
+
+Lemma match_route_empty_base : forall rs (p : bytes), match_route (Some []) rs p = match_route None rs p.
+Proof. intros rs p. unfold match_route. rewrite strip_base_empty. reflexivity. Qed.
+
+Lemma flat_match_static_nil : forall e (p : bytes), flat_match (PStatic [] :: e) p = flat_match e p.
+Proof. reflexivity. Qed.
+
+Lemma expand_static_cons : forall s f,
+  expand_optionals (PStatic s :: f) = map (cons (PStatic s)) (expand_optionals f).
+Proof. reflexivity. Qed.
+
+Lemma rmf_static_nil : forall f (p : bytes),
+  route_matches_flat (PStatic [] :: f) p = route_matches_flat f p.
+Proof.
+  intros f p. unfold route_matches_flat. rewrite expand_static_cons, existsb_map.
+  apply existsb_ext_in. intros e _. now rewrite flat_match_static_nil.
+Qed.
+
+Lemma flat_any_empty_base : forall rs (p : bytes), flat_any (Some []) rs p = flat_any None rs p.
+Proof.
+  intros rs p. unfold flat_any, table. rewrite existsb_map.
+  apply existsb_ext_in. intros f _. apply rmf_static_nil.
+Qed.
+
+Lemma cores_of_empty_base : forall rs, cores_of (Some []) rs = cores_of None rs.
+Proof.
+  intros rs. unfold cores_of. rewrite !filter_app. cbn [split_comps split_comps_aux rev filter usable_core].
+  reflexivity.
+Qed.
+
+Lemma known_class_empty_base : forall rs (p : bytes), known_class (Some []) rs p = known_class None rs p.
+Proof.
+  intros rs p. unfold known_class, k_boundary, k_slash_static. rewrite cores_of_empty_base.
+  cbn [base_untame]. reflexivity.
+Qed.
+
+(** a witness of "first entry wins" for the table without base is one for the table with the
+    empty base *)
+Lemma table_part_empty_base : forall flats (p : bytes) ps,
+  (exists pre g post e',
+      table None flats = pre ++ g :: post
+      /\ Forall (fun x => route_matches_flat x p = false) pre
+      /\ In e' (expand_optionals g) /\ flat_match e' p = Some ps) ->
+  exists pre g post e',
+      table (Some []) flats = pre ++ g :: post
+      /\ Forall (fun x => route_matches_flat x p = false) pre
+      /\ In e' (expand_optionals g) /\ flat_match e' p = Some ps.
+Proof.
+  intros flats p ps (pre & g & post & e' & Ht & Hpre & He & Hm). cbn [table] in Ht.
+  exists (map (cons (PStatic [])) pre), (PStatic [] :: g), (map (cons (PStatic [])) post), (PStatic [] :: e').
+  split; [cbn [table]; rewrite Ht, map_app; reflexivity|]. split; [|split].
+  - apply Forall_forall. intros x Hin. apply in_map_iff in Hin as (x0 & <- & Hx0).
+    rewrite rmf_static_nil. rewrite Forall_forall in Hpre. now apply Hpre.
+  - rewrite expand_static_cons. now apply in_map.
+  - now rewrite flat_match_static_nil.
+Qed.
+
+Lemma firstn_table_empty_base : forall flats i (p : bytes),
+  Forall (fun x => route_matches_flat x p = false) (firstn i (table (Some []) flats)) ->
+  Forall (fun x => route_matches_flat x p = false) (firstn i (table None flats)).
+Proof.
+  intros flats i p H. cbn [table] in *. rewrite firstn_map in H.
+  apply Forall_forall. intros x Hx. rewrite Forall_forall in H.
+  rewrite <- rmf_static_nil. apply H. now apply in_map.
+Qed.
+
+Lemma none_ne_some_nil : (@None bytes) <> Some [].
+Proof. discriminate. Qed.
+
+Lemma base_cases : forall base : option bytes, base = Some [] \/ base <> Some [].
+Proof.
+  intros [[|c b]|]; [left; reflexivity|right; discriminate|right; discriminate].
+Qed.
+
+(** ---- the theorems for every base, the empty one included ---- *)
+Theorem match_iff_flat_fine :
+  forall (base : option bytes) rs p,
+    wf_tree rs = true -> wf_routes rs = true -> starts_with_slash p = true ->
+    known_class base rs p = false ->
+    matches base rs p = flat_any base rs p /\ match_route base rs p <> MPanic.
+Proof.
+  intros base rs p Hwt Hwf Hsl Hk.
+  destruct (base_cases base) as [-> | Hne]; [|now apply match_iff_flat_fine_ne].
+  rewrite known_class_empty_base in Hk.
+  destruct (match_iff_flat_fine_ne None rs p none_ne_some_nil Hwt Hwf Hsl Hk) as [H1 H2].
+  unfold matches in *. rewrite match_route_empty_base, flat_any_empty_base. split; assumption.
+Qed.
+
+Theorem first_entry_wins_params :
+  forall (base : option bytes) rs p ch ps,
+    wf_tree rs = true -> wf_routes rs = true -> starts_with_slash p = true ->
+    known_class base rs p = false ->
+    match_route base rs p = MYes ch ps ->
+    exists pre f post e,
+      table base (gen_routes rs) = pre ++ f :: post
+      /\ Forall (fun g => route_matches_flat g p = false) pre
+      /\ In e (expand_optionals f)
+      /\ flat_match e p = Some ps.
+Proof.
+  intros base rs p ch ps Hwt Hwf Hsl Hk Hm.
+  destruct (base_cases base) as [-> | Hne]; [|now apply (first_entry_wins_params_ne base rs p ch ps)].
+  rewrite known_class_empty_base in Hk. rewrite match_route_empty_base in Hm.
+  apply table_part_empty_base.
+  exact (first_entry_wins_params_ne None rs p ch ps none_ne_some_nil Hwt Hwf Hsl Hk Hm).
+Qed.
+
+Theorem build_then_match_any :
+  forall (base : option bytes) rs i f e vals p,
+    wf_tree rs = true -> wf_routes rs = true ->
+    nth_error (gen_routes rs) i = Some f ->
+    In e (expand_optionals f) ->
+    vals_ok e vals -> p = built base e vals ->
+    known_class base rs p = false ->
+    exists ch ps,
+      match_route base rs p = MYes ch ps
+      /\ (exists pre g post e',
+            table base (gen_routes rs) = pre ++ g :: post
+            /\ Forall (fun x => route_matches_flat x p = false) pre
+            /\ In e' (expand_optionals g) /\ flat_match e' p = Some ps)
+      /\ (existsb is_popt f = false ->
+          Forall (fun x => route_matches_flat x p = false) (firstn i (table base (gen_routes rs))) ->
+          ps = bindings f vals).
+Proof.
+  intros base rs i f e vals p Hwt Hwf Hi He Hv Hp Hk.
+  destruct (base_cases base) as [-> | Hne];
+    [|now apply (build_then_match_any_ne base rs i f e vals p)].
+  rewrite known_class_empty_base in Hk.
+  destruct (build_then_match_any_ne None rs i f e vals p none_ne_some_nil Hwt Hwf Hi He Hv Hp Hk)
+    as (ch & ps & Hm & Htab & Hps).
+  exists ch, ps. split; [now rewrite match_route_empty_base|]. split.
+  - now apply table_part_empty_base.
+  - intros Hfo Hfirst. apply Hps; [exact Hfo|]. now apply firstn_table_empty_base.
+Qed.
+
+Lemma into_paths_empty_base : forall e pm,
+  into_paths (registered (Some []) e) pm = into_paths (registered None e) pm.
+Proof. reflexivity. Qed.
+
+Theorem build_then_match_real :
+  forall (base : option bytes) rs i f e pm paths p,
+    wf_tree rs = true -> wf_routes rs = true ->
+    nth_error (gen_routes rs) i = Some f -> In e (expand_optionals f) ->
+    pm_ok pm ->
+    into_paths (registered base e) pm = Some paths -> In p paths ->
+    starts_with_slash p = true -> known_class base rs p = false ->
+    exists vals ch ps,
+      vals_ok e vals /\ p = built base e vals
+      /\ match_route base rs p = MYes ch ps
+      /\ (exists pre g post e',
+            table base (gen_routes rs) = pre ++ g :: post
+            /\ Forall (fun x => route_matches_flat x p = false) pre
+            /\ In e' (expand_optionals g) /\ flat_match e' p = Some ps)
+      /\ (existsb is_popt f = false ->
+          Forall (fun x => route_matches_flat x p = false) (firstn i (table base (gen_routes rs))) ->
+          ps = bindings f vals).
+Proof.
+  intros base rs i f e pm paths p Hwt Hwf Hi He Hpm Hip Hp Hsl Hk.
+  destruct (base_cases base) as [-> | Hne];
+    [|now apply (build_then_match_real_ne base rs i f e pm paths p)].
+  rewrite known_class_empty_base in Hk. rewrite into_paths_empty_base in Hip.
+  destruct (build_then_match_real_ne None rs i f e pm paths p none_ne_some_nil
+              Hwt Hwf Hi He Hpm Hip Hp Hsl Hk)
+    as (vals & ch & ps & Hv & Hpb & Hm & Htab & Hps).
+  exists vals, ch, ps. split; [exact Hv|]. split; [exact Hpb|].
+  split; [now rewrite match_route_empty_base|]. split.
+  - now apply table_part_empty_base.
+  - intros Hfo Hfirst. apply Hps; [exact Hfo|]. now apply firstn_table_empty_base.
+Qed.
+
+(** the production configuration is inside the theorems: no <Router base>, i.e. base "" *)
+Example empty_base_nontrivial :
+  let rs := [Route (SStatic []) (Some [Route (SStatic []) None;
+                                       Route (STuple [SStatic [97]; SParam [120]]) None])] in
+  let p := [47; 97; 47; 49] in
+  wf_tree rs = true /\ wf_routes rs = true /\ known_class (Some []) rs p = false
+  /\ matches (Some []) rs p = true /\ flat_any (Some []) rs p = true.
+Proof. vm_compute. repeat split; reflexivity. Qed.
